@@ -964,7 +964,7 @@ static Boolean ClassComp(tStrComp* pArg, tAdrComps* pComps) {
             break;
         }
     }
-    if (pArg->str.p_str[pArg->Pos.Len - 1] == '+') {
+    if ((pArg->Pos.Len > 0) && (pArg->str.p_str[pArg->Pos.Len - 1] == '+')) {
         pArg->str.p_str[pArg->Pos.Len - 1] = '\0';
         switch (DecodeReg(pArg, &Reg, &Prefix, True, False)) {
         case eIsReg:
